@@ -1,7 +1,7 @@
 """Shared driver for the single-iteration proxy properties (C01, C02, C03, C06, C07, C13): MC_Proxy / Trace_Proxy."""
 import os
 import re
-from vlib import Infra
+from vlib import Infra, panic_site
 
 
 def run_focus(ctx, focus, emit_cfgs, reach=(), driver_env=None, rule="", extra_mc=(), extra_drivers=()):
@@ -111,12 +111,10 @@ def crash_or_infra(ctx, focus, out):
     if "VF-INFRA" in out:
         raise Infra("driver self-check failed:\n" + out[-3000:])
     m = re.search(r"^(panic: .*|fatal error: .*)$", out, re.M)
-    if m:
-        frames = re.findall(r"^\s+(\S+\.go):\d+", out, re.M)
-        repo = [f for f in frames if "/src/" in f and "zz_vf_" not in f and "_test.go" not in f]
-        if repo:
-            p = os.path.join(ctx.scratch, "crash.txt")
-            open(p, "w").write(out[-20000:])
-            ctx.violation("the proxy crashed while processing an in-domain input: %s (%s)" % (m.group(1)[:200], os.path.basename(repo[0])), files=[p], tag="crash")
-            return
+    site = panic_site(out, ctx.srcdir())
+    if m and site and site[2]:
+        p = os.path.join(ctx.scratch, "crash.txt")
+        open(p, "w").write(out[-20000:])
+        ctx.violation("the proxy crashed while processing an in-domain input: %s (%s:%s)" % (m.group(1)[:200], site[0], site[1]), files=[p], tag="crash")
+        return
     raise Infra("driver failed:\n" + out[-4000:])
